@@ -487,6 +487,13 @@ fn hit_json(m: &mut Memvid, h: &memvid_core::types::SearchHit) -> Value {
     json!({"f": h.frame_id, "rank": h.rank, "a": h.range.0, "b": h.range.1, "ca": ca, "cb": cb, "text_ok": text_ok})
 }
 
+fn card_json(c: &memvid_core::types::MemoryCard) -> Value {
+    let val = c.value.strip_prefix("val-").and_then(|k| k.parse::<i64>().ok()).unwrap_or(-1);
+    json!({"id": c.id, "entity": c.entity, "slot": c.slot, "value": val, "eff": c.effective_timestamp(),
+           "rel": format!("{:?}", c.version_relation).to_lowercase(), "src": c.source_frame_id, "raw_value": c.value.chars().take(40).collect::<String>(),
+           "src_uri": c.source_uri.clone().unwrap_or_default(), "auto": val < 0})
+}
+
 fn words_of(op: &Value) -> Vec<String> {
     op["words"]
         .as_array()
@@ -556,7 +563,10 @@ pub fn exec(ctx: &mut Ctx, op: &Value) -> (Value, Value) {
             let id = op["pay"].as_i64().unwrap_or(0);
             let cls = op["cls"].as_str().unwrap_or("text");
             let size = op["size"].as_u64().unwrap_or(40) as usize;
-            let bytes = payload_bytes(id as u64, cls, size, &words_of(op));
+            let bytes = match op["text"].as_str() {
+                Some(t) => t.as_bytes().to_vec(),       // literal text (triplet extraction scenarios)
+                None => payload_bytes(id as u64, cls, size, &words_of(op)),
+            };
             let opts = put_options(op);
             let emb = op["emb"].as_u64().filter(|e| *e > 0);
             let dim = op["dim"].as_u64().unwrap_or(4) as usize;
@@ -943,6 +953,71 @@ pub fn exec(ctx: &mut Ctx, op: &Value) -> (Value, Value) {
             }
             res_ok(json!(null))
         }
+        "card_put" => {
+            use memvid_core::types::MemoryCardBuilder;
+            let mut b = MemoryCardBuilder::new().fact()
+                .entity(op["entity"].as_str().unwrap_or("e1"))
+                .slot(op["slot"].as_str().unwrap_or("s1"))
+                .value(format!("val-{}", op["value"].as_i64().unwrap_or(0)))
+                .engine("verif", "1")
+                .source(op["frame"].as_u64().unwrap_or(0), None);
+            if let Some(t) = op["event_date"].as_i64() {
+                b = b.event_date(t);
+            }
+            if let Some(t) = op["document_date"].as_i64() {
+                b = b.document_date(t);
+            }
+            b = match op["rel"].as_str() {
+                Some("updates") => b.updates(),
+                Some("extends") => b.extends(),
+                Some("retracts") => b.retracts(),
+                _ => b,
+            };
+            match ctx.mem.as_mut() {
+                None => json!({"ok": false, "err": "NoHandle"}),
+                Some(m) => match b.build(0) {
+                    Ok(card) => guard(|| m.put_memory_card(card), |id| json!(id)),
+                    Err(e) => json!({"ok": false, "err": "CardBuild", "msg": format!("{e:?}").chars().take(100).collect::<String>()}),
+                },
+            }
+        }
+        "card_current" | "card_at" => {
+            let e = op["entity"].as_str().unwrap_or("e1");
+            let sl = op["slot"].as_str().unwrap_or("s1");
+            match ctx.mem.as_ref() {
+                None => json!({"ok": false, "err": "NoHandle"}),
+                Some(m) => {
+                    let r = catch_unwind(AssertUnwindSafe(|| {
+                        let c = if name == "card_current" { m.get_current_memory(e, sl) } else { m.get_memory_at_time(e, sl, op["t"].as_i64().unwrap_or(0)) };
+                        c.map(card_json)
+                    }));
+                    match r {
+                        Ok(Some(c)) => res_ok(json!({"found": true, "card": c})),
+                        Ok(None) => res_ok(json!({"found": false})),
+                        Err(p) => res_panic(p),
+                    }
+                }
+            }
+        }
+        "cards" => match ctx.mem.as_mut() {
+            None => json!({"ok": false, "err": "NoHandle"}),
+            Some(m) => {
+                let cards: Vec<memvid_core::types::MemoryCard> = m.memories().cards().to_vec();
+                let mut out = Vec::new();
+                for c in &cards {
+                    let mut j = card_json(c);
+                    // C26: does the frame the card points at exist, carry this URI, and contain the card's value?
+                    let fr = m.frame_by_id(c.source_frame_id).ok();
+                    j["src_exists"] = json!(fr.is_some());
+                    j["src_uri_matches"] = json!(fr.as_ref().and_then(|f| f.uri.clone()) == c.source_uri && c.source_uri.is_some());
+                    let text = catch_unwind(AssertUnwindSafe(|| m.frame_text_by_id(c.source_frame_id))).ok().and_then(|r| r.ok()).unwrap_or_default();
+                    j["value_in_text"] = json!(text.to_lowercase().contains(&c.value.to_lowercase()));
+                    out.push(j);
+                }
+                let snap: Value = serde_json::from_str(&memvid_core::verif::snapshot(m)).unwrap_or(json!({}));
+                res_ok(json!({"cards": out, "queue": snap["queue"], "mesh_nodes": m.logic_mesh_manifest().map(|x| x.node_count).unwrap_or(0)}))
+            }
+        },
         "noop" => res_ok(json!(null)),
         "export" => {
             // copy the memory file out of the scratch directory (debugging aid / corruption experiments)
